@@ -315,16 +315,31 @@ inductive Reach (es : List Entry) (len : Nat) : Nat → Prop
       inFile len d → Reach es len d
 
 /-- `es` is the segmentation of the file `b` into valid instructions (address, instruction, address after it), every
-in-file branch target is an instruction boundary, and every instruction is reachable from the first -/
+in-file branch target is an instruction boundary, and every instruction is reachable from the first.
+(`BASE ≤ e.addr` is not a field: it follows from `reach` and `size`, see `WellFormed.bound`.  `next` is only required
+of instructions that fall through, `getReturns`.) -/
 structure WellFormed (decode : Decoder) (b : List UInt8) (es : List Entry) : Prop where
   small : BASE + b.length < two32
   sorted : Sorted es
   first : ∃ e ∈ es, e.addr = BASE
-  bound : ∀ e ∈ es, BASE ≤ e.addr ∧ e.addr < e.after ∧ e.after ≤ BASE + b.length
-  next : ∀ e ∈ es, e.after < BASE + b.length → ∃ e' ∈ es, e'.addr = e.after
+  size : ∀ e ∈ es, e.addr < e.after ∧ e.after ≤ BASE + b.length
+  next : ∀ e ∈ es, getReturns e.instr = true → e.after < BASE + b.length → ∃ e' ∈ es, e'.addr = e.after
   dec : ∀ e ∈ es, decode (b.drop (e.addr - BASE)) = some (e.after - e.addr, e.instr)
   targets : ∀ e ∈ es, ∀ d, getBranch e.instr e.addr = some d → inFile b.length d → ∃ e' ∈ es, e'.addr = d
   reach : ∀ e ∈ es, Reach es b.length e.addr
+
+/-- reachable addresses are not below `BASE` -/
+theorem reach_base_le {es : List Entry} {len : Nat} (hs : ∀ e ∈ es, e.addr < e.after) {a : Nat}
+    (h : Reach es len a) : BASE ≤ a := by
+  induction h with
+  | base => exact Nat.le_refl _
+  | @fall e he _ _ _ ih => have := hs e he; omega
+  | @branch e d _ _ _ hin _ => exact hin.1
+
+/-- every entry lies inside the file -/
+theorem WellFormed.bound {decode : Decoder} {b : List UInt8} {es : List Entry} (wf : WellFormed decode b es) :
+    ∀ e ∈ es, BASE ≤ e.addr ∧ e.addr < e.after ∧ e.after ≤ BASE + b.length := fun e he =>
+  ⟨reach_base_le (fun x hx => (wf.size x hx).1) (wf.reach e he), wf.size e he⟩
 
 /-- invariant of the traversal; `hole` = the address the inner loop is about to decode -/
 structure Inv (es : List Entry) (len : Nat) (st : St) (hole : Option Nat) : Prop where
@@ -510,11 +525,40 @@ theorem walk_inv {decode : Decoder} {b : List UInt8} {es : List Entry} (wf : Wel
         · intro hlt2
           have : BASE + (e.after - BASE) = e.after := by omega
           rw [this]
-          exact wf.next e he (by omega)
+          exact wf.next e he hr (by omega)
       · simp only [hr] at hstep ⊢
         exact hstep
     · rename_i hlt
       exact inv_close_hole wf hi (by unfold inFile; omega)
+
+/-- popping the smallest query opens a hole at it -/
+theorem inv_pop {es : List Entry} {len : Nat} {st : St} {start : Nat} {rest : List Nat}
+    (hi : Inv es len st none) (hq : st.queries = start :: rest) :
+    Inv es len { st with queries := rest } (some start) := by
+  refine ⟨hi.sorted, hi.sub, ?_, ?_, ?_, ?_⟩
+  · intro x hx hr hlt
+    rcases hi.fall x hx hr hlt with h | h
+    · exact .inl h
+    · cases h
+  · intro x hx d hd hin
+    rcases hi.br x hx d hd hin with h | h | h
+    · exact .inl h
+    · rw [hq] at h
+      simp at h
+      rcases h with h | h
+      · exact .inr (.inr (by rw [h]))
+      · exact .inr (.inl h)
+    · cases h
+  · rcases hi.base with h | h | h
+    · exact .inl h
+    · rw [hq] at h
+      simp at h
+      rcases h with h | h
+      · exact .inr (.inr (by rw [h]))
+      · exact .inr (.inl h)
+    · cases h
+  · intro q hq' hin
+    exact hi.qs q (by rw [hq]; exact List.mem_cons_of_mem _ hq') hin
 
 theorem outer_inv {decode : Decoder} {b : List UInt8} {es : List Entry} (wf : WellFormed decode b es) :
     ∀ (fuel : Nat) (st : St), Inv es b.length st none →
@@ -533,32 +577,7 @@ theorem outer_inv {decode : Decoder} {b : List UInt8} {es : List Entry} (wf : We
     split
     · rename_i hq; exact ⟨hi, hq⟩
     · rename_i start rest hq
-      -- popping the smallest query opens a hole at it
-      have hi1 : Inv es b.length { st with queries := rest } (some start) := by
-        refine ⟨hi.sorted, hi.sub, ?_, ?_, ?_, ?_⟩
-        · intro x hx hr hlt
-          rcases hi.fall x hx hr hlt with h | h
-          · exact .inl h
-          · cases h
-        · intro x hx d hd hin
-          rcases hi.br x hx d hd hin with h | h | h
-          · exact .inl h
-          · rw [hq] at h
-            simp at h
-            rcases h with h | h
-            · exact .inr (.inr (by rw [h]))
-            · exact .inr (.inl h)
-          · cases h
-        · rcases hi.base with h | h | h
-          · exact .inl h
-          · rw [hq] at h
-            simp at h
-            rcases h with h | h
-            · exact .inr (.inr (by rw [h]))
-            · exact .inr (.inl h)
-          · cases h
-        · intro q hq' hin
-          exact hi.qs q (by rw [hq]; exact List.mem_cons_of_mem _ hq') hin
+      have hi1 : Inv es b.length { st with queries := rest } (some start) := inv_pop hi hq
       split
       · rename_i hin
         have hw := walk_inv wf b.length (start - BASE) { st with queries := rest }
@@ -766,5 +785,48 @@ theorem chain_flatten (b : List UInt8) : ∀ (es : List Entry) (a z : Nat), Chai
         | cons x xs ihx => intro a z h; obtain ⟨h1, h2, h3⟩ := h; have := ihx _ _ h3; omega
       have := this r e.after z h3
       omega
+
+theorem chain_le : ∀ (r : List Entry) (a z : Nat), Chain r a z → a ≤ z
+  | [], a, z, h => by simp [Chain] at h; omega
+  | x :: xs, a, z, h => by obtain ⟨h1, h2, h3⟩ := h; have := chain_le xs _ _ h3; omega
+
+/-- a chain is strictly ascending, stays inside `[a, z]`, and every entry ending before `z` has a successor -/
+theorem chain_facts : ∀ (es : List Entry) (a z : Nat), Chain es a z →
+    Sorted es ∧ (∀ e ∈ es, a ≤ e.addr ∧ e.addr < e.after ∧ e.after ≤ z) ∧
+    (∀ e ∈ es, e.after < z → ∃ e' ∈ es, e'.addr = e.after)
+  | [], _, _, _ => by simp [Sorted]
+  | e :: r, a, z, h => by
+    obtain ⟨h1, h2, h3⟩ := h
+    obtain ⟨ihs, ihb, ihn⟩ := chain_facts r e.after z h3
+    have hle := chain_le r e.after z h3
+    refine ⟨?_, ?_, ?_⟩
+    · unfold Sorted at ihs ⊢
+      rw [List.pairwise_cons]
+      exact ⟨fun x hx => by have := ihb x hx; omega, ihs⟩
+    · intro x hx
+      rcases List.mem_cons.1 hx with rfl | hx
+      · omega
+      · have := ihb x hx; omega
+    · intro x hx hlt
+      rcases List.mem_cons.1 hx with rfl | hx
+      · cases r with
+        | nil => simp [Chain] at h3; omega
+        | cons y ys => exact ⟨y, by simp, h3.1⟩
+      · obtain ⟨y, hy, hya⟩ := ihn x hx hlt
+        exact ⟨y, List.mem_cons_of_mem _ hy, hya⟩
+
+/-- for a gap-free segmentation (`Chain`) of a non-empty file the fields `sorted`, `first`, `size`, `next` of
+`WellFormed` come for free -/
+theorem WellFormed.of_chain {decode : Decoder} {b : List UInt8} {es : List Entry}
+    (small : BASE + b.length < two32) (nonempty : 0 < b.length) (chain : Chain es BASE (BASE + b.length))
+    (dec : ∀ e ∈ es, decode (b.drop (e.addr - BASE)) = some (e.after - e.addr, e.instr))
+    (targets : ∀ e ∈ es, ∀ d, getBranch e.instr e.addr = some d → inFile b.length d → ∃ e' ∈ es, e'.addr = d)
+    (reach : ∀ e ∈ es, Reach es b.length e.addr) : WellFormed decode b es := by
+  obtain ⟨hs, hb, hn⟩ := chain_facts es _ _ chain
+  refine ⟨small, hs, ?_, fun e he => (hb e he).2, fun e he _ hlt => hn e he hlt, dec, targets, reach⟩
+  cases es with
+  | nil => have : BASE = BASE + b.length := chain
+           omega
+  | cons e r => exact ⟨e, by simp, chain.1⟩
 
 end Trion.Tridas
